@@ -119,6 +119,11 @@ class C03(PropCheck):
             keep = [c for c in out if len(c["links"]) < 2]
             rest = [c for c in out if len(c["links"]) >= 2]
             out = keep + rng.sample(rest, min(len(rest), 250))
+        else:
+            # (with 19 link kinds the depth-3 product has grown past 100 000 chains: depth <= 2 stays exhaustive, depth 3 is sampled)
+            keep = [c for c in out if len(c["links"]) < 3]
+            rest = [c for c in out if len(c["links"]) >= 3]
+            out = keep + rng.sample(rest, min(len(rest), 25000))
         nrand = 150 if tier == "quick" else 2500
         maxd = 12 if tier == "quick" else 40
         for _ in range(nrand):
